@@ -34,6 +34,14 @@ pub enum Op {
     SinkClose { s: u16 },
     CloneSender { s: u16 },
     DropSender { s: u16 },
+    /// Sink: poll_ready, start_send, then poll_close without a flush in between (what
+    /// `SinkExt::close` and the end of `forward` do): the item is sent and the receiver woken
+    SinkFeedClose { s: u16 },
+    /// `senders[s].clone_from(&sender of ANOTHER channel)`: the handle leaves this channel exactly
+    /// as if it had been dropped (the last one leaving wakes the receiver)
+    CloneFromOther { s: u16 },
+    /// `senders[s].clone_from(&senders[t])` within the channel: nothing changes
+    CloneFromSame { s: u16, t: u16 },
     Close { s: u16 },
     /// poll the receiver once with a fresh counting waker
     Poll,
@@ -65,6 +73,12 @@ fn check_inner(c: &Case) -> CaseResult {
     // kept in `Sut`: leaked instead of dropped while a panic of the channel unwinds
     let mut senders = vec![vcore::Sut::new(tx)];
     let mut rx = Some(vcore::Sut::new(rx));
+    // another channel, only as a clone_from source; senders that moved there are kept alive
+    let other = {
+        let (t, r) = mpsc::channel::<u32>();
+        (vcore::Sut::new(t), vcore::Sut::new(r))
+    };
+    let mut elsewhere: Vec<vcore::Sut<mpsc::Sender<u32>>> = vec![];
     // model
     let mut queue: VecDeque<u32> = VecDeque::new();
     let mut closed = false;
@@ -146,6 +160,59 @@ fn check_inner(c: &Case) -> CaseResult {
                 let i = vcore::pick(s, senders.len());
                 let n = (*senders[i]).clone();
                 senders.push(vcore::Sut::new(n));
+            }
+            Op::SinkFeedClose { s } => {
+                if senders.is_empty() {
+                    continue;
+                }
+                let i = vcore::pick(s, senders.len());
+                let v = next_val;
+                next_val += 1;
+                let (_cw, w) = count_waker();
+                let mut cx = Context::from_waker(&w);
+                let mut p = Pin::new(&mut *senders[i]);
+                vensure!(matches!(p.as_mut().poll_ready(&mut cx), Poll::Ready(Ok(()))), "C16/sink", "step {}: Sink::poll_ready not Ready(Ok)", step);
+                let res = p.as_mut().start_send(v).map_err(|e| e.into_inner());
+                vensure!(matches!(p.as_mut().poll_close(&mut cx), Poll::Ready(Ok(()))), "C16/sink", "step {}: Sink::poll_close not Ready(Ok)", step);
+                let want_err = rx.is_none() || closed;
+                match res {
+                    Ok(()) => {
+                        vensure!(!want_err, "C16/send-after-close", "step {}: start_send succeeded although the {}; ops {:?}", step, if rx.is_none() { "receiver was dropped" } else { "channel was closed" }, c.ops);
+                        queue.push_back(v);
+                        obs.label("sink-feed-then-close");
+                        owed_wake!(step, "start_send followed by a completed poll_close");
+                    }
+                    Err(back) => {
+                        vensure!(want_err, "C16/send-spurious-error", "step {}: start_send failed although the receiver is alive and the channel open; ops {:?}", step, c.ops);
+                        vensure!(back == v, "C16/send-error-item", "step {}: SendError returned {} instead of the rejected item {}", step, back, v);
+                    }
+                }
+            }
+            Op::CloneFromOther { s } => {
+                if senders.is_empty() {
+                    continue;
+                }
+                let i = vcore::pick(s, senders.len());
+                let mut moved = senders.remove(i);
+                (*moved).clone_from(&*other.0);
+                elsewhere.push(moved);
+                obs.label("clone_from-another-channel");
+                if senders.is_empty() && rx.is_some() {
+                    owed_wake!(step, "clone_from re-pointing the last sender at another channel");
+                }
+            }
+            Op::CloneFromSame { s, t } => {
+                if senders.len() < 2 {
+                    continue;
+                }
+                let i = vcore::pick(s, senders.len());
+                let j = vcore::pick(t, senders.len());
+                if i == j {
+                    continue;
+                }
+                let src = (*senders[j]).clone();
+                (*senders[i]).clone_from(&src);
+                drop(src);
             }
             Op::DropSender { s } => {
                 if senders.is_empty() {
@@ -266,6 +333,19 @@ fn check_inner(c: &Case) -> CaseResult {
     Ok(obs)
 }
 
+/// second exhaustive alphabet: the rarer entry points with a core of the first
+const ALPHA2: [Op; 9] = [
+    Op::SinkFeedClose { s: 0 },
+    Op::CloneFromOther { s: 0 },
+    Op::CloneFromSame { s: 0, t: 65535 },
+    Op::Send { s: 0 },
+    Op::CloneSender { s: 0 },
+    Op::DropSender { s: 0 },
+    Op::Poll,
+    Op::PollSame { w: 0 },
+    Op::Close { s: 0 },
+];
+
 const ALPHA: [Op; 11] = [
     Op::SinkClose { s: 0 },
     Op::PollSame { w: 0 },
@@ -288,6 +368,9 @@ fn op() -> impl Strategy<Value = Op> {
         1 => any::<u8>().prop_map(|n| Op::Flood { n }),
         2 => any::<u16>().prop_map(|s| Op::CloneSender { s }),
         3 => any::<u16>().prop_map(|s| Op::DropSender { s }),
+        1 => any::<u16>().prop_map(|s| Op::SinkFeedClose { s }),
+        1 => any::<u16>().prop_map(|s| Op::CloneFromOther { s }),
+        1 => (any::<u16>(), any::<u16>()).prop_map(|(s, t)| Op::CloneFromSame { s, t }),
         2 => any::<u16>().prop_map(|s| Op::Close { s }),
         3 => Just(Op::Poll),
         2 => Just(Op::PollRecv),
@@ -330,7 +413,7 @@ pub fn case_from_bytes(data: &[u8]) -> Case {
     }
 }
 
-const RULE: &str = "operation sequences over {send, Sink send, Sink close (a no-op for the channel), a flood of 65..184 sends followed by as many polls, clone sender, drop a sender, close, poll receiver with a fresh counting waker or one of two long-lived wakers (also through recv()), sender-from-receiver, drop receiver} with <=3 senders, applied to local_channel::mpsc and to a reference queue model; send must fail exactly when the receiver is gone or the channel closed (returning the item); poll_next must equal the model; a Pending poll's waker must be woken by the next successful send, the last sender's drop and close (extra wake-ups allowed); a final drain must return the buffered items in order; non-trivial = a Pending poll followed by send/last-drop/close, or close with a live sender followed by a poll";
+const RULE: &str = "operation sequences over {send, Sink send, Sink start_send completed by poll_close, Sink close (a no-op for the channel), clone_from a sender of another channel (= leaving this one) or of this one, a flood of 65..184 sends followed by as many polls, clone sender, drop a sender, close, poll receiver with a fresh counting waker or one of two long-lived wakers (also through recv()), sender-from-receiver, drop receiver} with <=3 senders, applied to local_channel::mpsc and to a reference queue model; send must fail exactly when the receiver is gone or the channel closed (returning the item); poll_next must equal the model; a Pending poll's waker must be woken by the next successful send, the last sender's drop and close (extra wake-ups allowed); a final drain must return the buffered items in order; non-trivial = a Pending poll followed by send/last-drop/close, or close with a live sender followed by a poll";
 
 pub fn run(ctx: &Ctx) {
     ctx.assume("single-threaded use (the channel is !Send); wake-ups observed through counting wakers, one fresh waker per poll or one of two long-lived wakers");
@@ -353,6 +436,26 @@ pub fn run(ctx: &Ctx) {
         },
         check_case,
     );
+    {
+        let max_len2 = ctx.tier.pick(6u32, 7u32);
+        let k2 = ALPHA2.len() as u64;
+        let total2: u64 = (0..=max_len2).map(|l| k2.pow(l)).sum();
+        ctx.run_enum(
+            Part::new("ops-exhaustive-2", RULE, total2),
+            |shard, n, f: &mut dyn FnMut(&Case) -> bool| {
+                let idx: Vec<u8> = (0..k2 as u8).collect();
+                let mut ix = shard as u64;
+                while ix < total2 {
+                    let s = crate::c15::nth_string(ix, &idx);
+                    if !f(&Case { ops: s.iter().map(|i| ALPHA2[*i as usize]).collect() }) {
+                        return;
+                    }
+                    ix += n as u64;
+                }
+            },
+            check_case,
+        );
+    }
     ctx.run_random(
         Part::new("ops", RULE, ctx.tier.scale(40_000, 20)).floors(&[("wake-after-pending", 0.3), ("poll-after-close", 0.1), ("received>=2", 0.3), ("same-waker-repoll", 0.03)]),
         strategy,
